@@ -183,7 +183,12 @@ func (s *Schema) IDL() string {
 				case 3:
 					an = append(an, fmt.Sprintf(`go.tag='protobuf:"bytes,1,opt,name=x" json:"%s,string"'`, f.Alias))
 				default:
-					an = append(an, fmt.Sprintf("api.key=%q", f.Alias))
+					// IDL literals are taken as they are (no escape processing): choose the quote the alias lacks
+					if strings.Contains(f.Alias, `"`) {
+						an = append(an, "api.key='"+f.Alias+"'")
+					} else {
+						an = append(an, `api.key="`+f.Alias+`"`)
+					}
 				}
 			}
 			an = append(an, f.Annos...)
@@ -332,7 +337,9 @@ func (g *sgen) newStruct(depth int) *StructT {
 		}
 		if g.cfg.Aliases && g.r.Chance(25) {
 			// aliases exercise bytes below '.' (which wrap in the name trie), spaces and upper case
-			pats := []string{"k%d_%d", "k%d_%d", "k-%d-%d", "k %d.%d", "+k%d%d", "k$%d,%d", "K%d_%d", "-%d%d", "k%d-%d"}
+			pats := []string{"k%d_%d", "k%d_%d", "k-%d-%d", "k %d.%d", "+k%d%d", "k$%d,%d", "K%d_%d", "-%d%d", "k%d-%d",
+				// member names that need JSON escaping: quote, backslash, control character
+				"k\"%d_%d", "k\\%d_%d", "k\t%d_%d", "k'%d_%d"}
 			f.Alias = fmt.Sprintf(pats[g.r.Intn(len(pats))], sn, i)
 			if !strings.ContainsAny(f.Alias, ",\"\\'") && g.r.Chance(35) {
 				f.GoTag = 1 + g.r.Intn(3)
